@@ -33,6 +33,9 @@ pub struct HistParams {
     /// every reply packet of the operations' exchanges is delayed by this many milliseconds
     /// (a slow terminal that stays within the per-packet time-out)
     pub delay_ms: u64,
+    /// which property the run is about: the history ends at the first problem of that property
+    /// (problems of the other one do not end it, so that each check stands on its own)
+    pub focus19: bool,
 }
 
 pub struct PolSt {
@@ -45,6 +48,7 @@ pub struct PolSt {
     pub reported: Option<Option<u32>>,
     pub lazy: bool,
     pub p: HistParams,
+    pub declined_after_status: u64,
 }
 
 pub struct HistPolicy {
@@ -81,7 +85,15 @@ impl Policy for HistPolicy {
             }
         }
         let issued = if req.key == "Reservation" && matches!(outcome, Outcome::Ok | Outcome::OkExtraStatus) { Some(t.free_receipt()) } else { None };
-        st.chosen.push((x, outcome.clone(), issued));
+        // for the model a reservation declined after a status information is a declined reservation
+        let for_model = match &outcome {
+            Outcome::StatusThenAbort(c) => Outcome::Abort(*c),
+            o => o.clone(),
+        };
+        if matches!(outcome, Outcome::StatusThenAbort(_)) {
+            st.declined_after_status += 1;
+        }
+        st.chosen.push((x, for_model, issued));
         let mut steps = default_script(t, req, &outcome, 1);
         if st.lazy && st.p.noise && matches!(x, Xch::Main | Xch::P1 | Xch::P2 | Xch::P3) && req.key != "ReadCard" {
             // deviations from the default reply shape: no / two intermediate statuses, a print line or
@@ -139,7 +151,7 @@ pub struct HistOut {
 pub fn history(ctx: &mut Ctx, p: &HistParams, first: Option<usize>, acc: &mut Acc) -> HistOut {
     let table: &'static Table = vcore::layout::shipped_static();
     let sh: Sh = Rc::new(RefCell::new(std::mem::replace(ctx, Ctx::new(vec![], vec![], 0))));
-    let st = Rc::new(RefCell::new(PolSt { op: Op::Configure, tracker: Tracker::new(), chosen: vec![], eod_chosen: None, reported: None, lazy: false, p: p.clone() }));
+    let st = Rc::new(RefCell::new(PolSt { op: Op::Configure, tracker: Tracker::new(), chosen: vec![], eod_chosen: None, reported: None, lazy: false, p: p.clone(), declined_after_status: 0 }));
     let mut out = HistOut { c07: vec![], c19: vec![], trace: vec![], final_state: 0 };
     {
         let sim = Sim::new(sh.clone(), Box::new(HistPolicy { st: st.clone() }));
@@ -389,7 +401,7 @@ pub fn history(ctx: &mut Ctx, p: &HistParams, first: Option<usize>, acc: &mut Ac
                     }
                     out.final_state = h64(&(p.max, &snap, feig.verif_snapshot().1, &sim.w.borrow().t.ledger, sim.w.borrow().t.dangling));
                     acc.set("states", out.final_state);
-                    if !out.c07.is_empty() || !out.c19.is_empty() {
+                    if (!p.focus19 && !out.c07.is_empty()) || (p.focus19 && !out.c19.is_empty()) {
                         break;
                     }
                 }
@@ -397,6 +409,9 @@ pub fn history(ctx: &mut Ctx, p: &HistParams, first: Option<usize>, acc: &mut Ac
             }
         }
         drop(sim);
+    }
+    if st.borrow().declined_after_status > 0 {
+        acc.count("w_declined_after_status", 1);
     }
     *ctx = Rc::try_unwrap(sh).ok().expect("context still shared").into_inner();
     out
